@@ -4,7 +4,7 @@
 From Coq Require Import String.
 From Coq Require Import List NArith ZArith Bool.
 From SNT Require Export Base.Outcome Base.Report Keys.KeyParse Encoder.Base64
-  Serde.Json Serde.ImageDe Serde.FaceStr Serde.ViewDe.
+  Serde.Json Serde.ImageDe Serde.FaceStr Serde.ViewDe Serde.ViewTree.
 Import ListNotations.
 Local Open Scope N_scope.
 
@@ -159,9 +159,15 @@ Inductive c19_case :=
 | CChord (ks : list key) (tbl : list (str * str)) (printed : str) (ser : json) (back : cres)
     (* a chord accepted by the parser: Display, to_value, from_value *)
 | CChordDe (doc : json) (tbl : list (str * str)) (impl : cres)
-| CView (kind : vkind) (doc : json) (orc : list (N * json * bool)) (ftbl : list (str * option rgba)) (impl : vres).
+| CView (kind : vkind) (cfg : bool) (doc : json) (orc : list (N * json * bool)) (ftbl : list (str * option rgba))
+        (impl : vres) (sk : option skel).
     (* view / text / glyph deserialisation; orc = answers of the external deserialisers
-       (path, scene, bbox, fill rule, f64, frame numbers) on the sub-values they were asked about *)
+       (path, scene, bbox, fill rule, f64, frame numbers) on the sub-values they were asked about;
+       cfg = the deserialiser was given a cache (uid 7 = a container around a text) and a handler "custom";
+       sk = the shape of the layout tree of the deserialised view (one node per layout node) *)
+
+Definition handlers_of (cfg : bool) : str -> bool :=
+  if cfg then (fun t => str_eqb t (s2l "custom")) else no_handlers.
 
 Definition c19_check (c : c19_case) : bool * bool :=
   match c with
@@ -209,8 +215,17 @@ Definition c19_check (c : c19_case) : bool * bool :=
        cres_eqb back (COk ks))
   | CChordDe doc tbl impl =>
       (cres_eqb (chord_de (table_lower tbl) doc) impl, negb (cres_eqb impl CPanic))
-  | CView kind doc orc ftbl impl =>
-      (vres_agree (view_de_kind (table_orc json_eqb orc) (table_rgba ftbl) kind doc) impl,
+  | CView kind cfg doc orc ftbl impl sk =>
+      (vres_agree (view_de_kind (table_orc json_eqb orc) (table_rgba ftbl) (handlers_of cfg) kind doc) impl
+       (* the view tree of the model has the shape of the real view's layout tree *)
+       && match impl, sk with
+          | VOk _, Some k =>
+              match view_tree (table_orc json_eqb orc) (table_rgba ftbl) (content0 cfg) (handlers_of cfg) kind doc with
+              | Ok v => skel_eqb (vskel v) k
+              | _ => false
+              end
+          | _, _ => true
+          end,
        match impl with VOk ok => ok | VErr => true | VPanic => false end)
   end.
 
